@@ -115,7 +115,7 @@ loop:
 			env.pushfork(pc)
 		case opforkalt:
 			if backtrack {
-				if err == nil {
+				if err == nil || isHaltError(err) {
 					break loop
 				}
 				pc, backtrack, err = code.v.(int), false, nil
@@ -356,6 +356,19 @@ loop:
 		return err, true
 	}
 	return nil, false
+}
+
+func isHaltError(err error) bool {
+	for {
+		switch e := err.(type) {
+		case *tryEndError:
+			err = e.err
+		case *HaltError:
+			return true
+		default:
+			return false
+		}
+	}
 }
 
 func (env *env) push(v any) {
